@@ -396,6 +396,41 @@ def mk_phi(test, a, b):
     return ("phi", test, a, b)
 
 
+def canon_test(test):
+    """the test a join is keyed on after mk_phi's normalisation (negations stripped, != as ==)"""
+    while True:
+        if is_t(test, "un") and test[1] == "not":
+            test = test[2]
+        elif is_t(test, "cmp") and test[1] == "!=":
+            test = mk_cmp("==", test[2], test[3])
+        else:
+            return test
+
+
+def scenarios(t, max_tests: int = 4):
+    """[(conds, leaf)]: t under every assignment of truth values to the tests of the joins occurring ANYWHERE in it (at the top, as a receiver, as an
+    argument), infeasible-by-construction duplicates removed.  Rules that speak about "the kwargs path" / "the plain path" use this instead of walking one
+    particular nesting of joins."""
+    tests = list(dict.fromkeys(x[1] for x in subterms(t) if is_t(x, "phi") and len(x) == 4))
+    tests = [c for c in tests if not any(is_t(y, "phi") for y in subterms(c))][:max_tests]
+    import itertools
+
+    out, seen = [], set()
+    for pols in itertools.product((True, False), repeat=len(tests)):
+        u = t
+        used = []
+        for c, pol in zip(tests, pols):
+            if contains(u, c) and any(is_t(x, "phi") and x[1] == c for x in subterms(u)):
+                u = resolve(u, c, pol)
+                used.append((c, pol))
+        u = renorm(u)
+        key = (tuple(used), u)
+        if key not in seen:
+            seen.add(key)
+            out.append((list(used), u))
+    return out
+
+
 def resolve(t, test, pol):
     """t under the assumption that `test` has truth value pol: joins on that very test collapse"""
     if is_t(t, "phi") and t[1] == test:
@@ -718,7 +753,7 @@ class _Ctx:
         ev.depth_reached = max(ev.depth_reached, depth)
         # joins written in THIS function body as Python conditionals (expressions or if/else assignments) - as opposed to lax.cond / FlagOp.cond joins and to
         # joins inherited from inlined callees, which are values like any other
-        self.py_phis: set = set()
+        self.py_tests: set = set()
 
     # -------------------------------------------------------------- statements
     def run_body(self, body, env) -> FuncResult:
@@ -728,7 +763,11 @@ class _Ctx:
         res.env = out_env if out_env is not None else getattr(res, "env_at_return", env)
         # `return a if c else b` and `if c: return a` / `else: return b` are the same arms
         def _expand(conds, t):
-            if is_t(t, "phi") and t in self.py_phis:
+            if is_t(t, "phi") and t[1] in self.py_tests:
+                if (t[1], True) in conds:  # already decided on this path
+                    return _expand(conds, t[2])
+                if (t[1], False) in conds:
+                    return _expand(conds, t[3])
                 return _expand(conds + ((t[1], True),), t[2]) + _expand(conds + ((t[1], False),), t[3])
             return [(conds, t)]
 
@@ -831,10 +870,7 @@ class _Ctx:
             e2 = self.block(orelse, dict(env), conds + ((test, False),)) if orelse else dict(env)
             self._extra = ((test, False),) if e1 is None and e2 is not None else ((test, True),) if e2 is None and e1 is not None else ()
             out = _join(test, e1, e2)
-            if e1 is not None and e2 is not None:
-                for v in out.values():
-                    if is_t(v, "phi") and v[1] == test:
-                        self.py_phis.add(v)
+            self.py_tests.add(canon_test(test))
             return out
         if isinstance(st, ast.Match):
             return self.match(st, env, conds)
@@ -969,6 +1005,11 @@ class _Ctx:
             return tests[0] if len(tests) == 1 else ("bool", "and", tuple(tests))
         if isinstance(pat, ast.MatchSequence):
             tests = []
+            nstar = sum(isinstance(sp, ast.MatchStar) for sp in pat.patterns)
+            if not ((is_t(subj, "tuple") or is_t(subj, "list")) and not _has_star(subj) and (len(subj[1]) == len(pat.patterns) if not nstar else len(subj[1]) >= len(pat.patterns) - 1)):
+                # a sequence pattern also tests the length of a subject whose length is not evident
+                ln = ("call", G("len"), (subj,), ())
+                tests.append(mk_cmp("==", ln, C(len(pat.patterns))) if not nstar else ("cmp", ">=", ln, C(len(pat.patterns) - 1)))
             for i, sp in enumerate(pat.patterns):
                 if isinstance(sp, ast.MatchStar):
                     if sp.name:
@@ -1078,10 +1119,8 @@ class _Ctx:
             return parts[0] if len(parts) == 1 else ("bool", "and", tuple(parts))
         if isinstance(e, ast.IfExp):
             test = self.expr(e.test, env)
-            v = mk_phi(test, self.expr(e.body, env), self.expr(e.orelse, env))
-            if is_t(v, "phi"):
-                self.py_phis.add(v)
-            return v
+            self.py_tests.add(canon_test(test))
+            return mk_phi(test, self.expr(e.body, env), self.expr(e.orelse, env))
         if isinstance(e, ast.Lambda):
             return self.make_closure(e, env, "<lambda>")
         if isinstance(e, ast.Subscript):
@@ -1236,6 +1275,11 @@ class _Ctx:
                 return mk_cmp(_OPERATOR_CMP[opn], args[0], args[1])
             if opn in ("neg", "not_", "invert") and len(args) == 1:
                 return ("un", {"neg": "-", "not_": "not", "invert": "~"}[opn], args[0])
+        if is_t(f, "closure_maker") and len(args) == 1 and not kwargs:
+            return ("ctor", "Closure", (f[1], args[0]), ())
+        # Cls[T](...) is Cls(...)
+        if is_t(f, "index") and is_t(f[1], "global") and f[1][1].split(".")[-1] in ev.prog.class_index:
+            return self.call_value(f[1], args, kwargs)
         # functools.partial(g, a, b)(c) is g(a, b, c)
         if is_t(f, "partial"):
             return self.call_value(f[1], list(f[2]) + list(args), {**dict(f[3]), **kwargs})
@@ -1461,10 +1505,8 @@ class _Ctx:
                     return ("where", args[0], args[1], args[2])
                 if (short, name) == ("FlagOp", "cond") and len(args) >= 3:
                     return mk_phi(args[0], self.call_value(args[1], args[3:], {}), self.call_value(args[2], args[3:], {}))
-                if (short, name) == ("Pytree", "partial"):
-                    return ("identity_deco",)
-        if is_t(f[1], "call") is False and f == ("identity_deco",):
-            return None
+                if (short, name) == ("Pytree", "partial") and not kwargs:
+                    return ("closure_maker", mk_tuple(args))  # Pytree.partial(*dyn)(fn) is Closure(dyn, fn)
         # x.at[i].set(v)
         if name == "set" and is_t(obj, "index") and is_t(obj[1], "attr") and obj[1][2] == "at" and len(args) == 1:
             return ("atset", obj[1][1], obj[2], args[0])
